@@ -10,9 +10,11 @@ ESCALATE_MAX = 60000      # cases drawn at most when a changed source file makes
 RULE = ("random well-formed textgrids (1-3 interval/point tiers, 0-4 entries; labels from an adversarial pool: quotes, doubled "
         "quotes, runs of quotes at either end, newlines, '=', digits, brackets, backslash, non-ASCII, astral; times: 1-6 digit "
         "decimals, integers, integers x (1 +- 10^-k) for k=9..16, integers +-1..2 ulp, k/64, powers of ten from 1e-17 to 1e15, "
-        "uniform up to 1e15; within one tier distinct times differ by >= 1e-6 so that no sliver is absorbed) x 4 formats x "
+        "uniform up to 1e15; a quarter of the textgrids reflected to NEGATIVE times - wholly below 0 with the span ending at -0.0, or on "
+        "both sides of 0; tier names with leading/trailing blanks, tabs, U+3000 and with line breaks; within one tier distinct "
+        "times differ by >= 1e-6 so that no sliver is absorbed) x 4 formats x "
         "includeBlankSpaces x includeEmptyIntervals; a separate keyword stream puts the formats' own keywords into labels and "
-        "names (known finding A10). Each case: save through a real file, open the file, compare, save the reopened textgrid and "
+        "names (known finding A10; A33: a line of a multi-line name that reads like the tier's span row). Each case: save through a real file, open the file, compare, save the reopened textgrid and "
         "compare the text; the text and the parse are also compared with the Lean emitter / parser models - for every textgrid "
         "also both JSON texts (json.dumps model) and what parseTextgridStr reads from them and from an independently written "
         "JSON document with the same content (other key order, white space, \\u escapes, numeral styles, extra/duplicate keys). "
@@ -20,13 +22,13 @@ RULE = ("random well-formed textgrids (1-3 interval/point tiers, 0-4 entries; la
 TRUSTED = ["oracle: field-by-field comparison in Python (harness/props/C01.py:oracle); CPython repr/float/json; UTF-8 file I/O",
            "hypothesis hnum of C01.parseShort_emit (every rendered time is a NumWord: non-empty, one line, no quote, no "
            "surrounding whitespace) is sampled on every time of every case (oracle clause 'numword'); likewise hypothesis hnum of "
-           "C01.parseLong_emit (LongNum: the numeral matches [\\d.]+(?:[eE][-+]?\\d+)? entirely; oracle clause 'longnum'); likewise "
+           "C01.parseLong_emit (LongNum: the numeral matches -?[\\d.]+(?:[eE][-+]?\\d+)? entirely; oracle clause 'longnum'); likewise "
            "hypothesis hnum of C02.decode_json_full / parseAny_json_full (JsonNum: float.__repr__ of the time is a number of the JSON "
            "grammar; oracle clause 'jsonnum')",
            "CPython's json module (json.dumps / json.loads) is trusted as a component and compared on every case with its Lean model: "
            "the written JSON text byte for byte with Json.render (op emitjson), the reader with Json.parse + tgOfJson on praatio-written, "
            "independently written, damaged and handwritten documents (ops parsejson, u_jsonstr, u_jsonnum, u_jsondoc)"]
-ASSUMPTIONS = ["labels and names contain no carriage return; names non-empty, single-line, trimmed",
+ASSUMPTIONS = ["labels and names contain no carriage return; names non-empty",
                "intervals and gaps are at least 1e-6 long (sliver absorption is C04's subject)"]
 
 def numword_ok(w):
@@ -37,9 +39,9 @@ def numword_ok(w):
 
 def longnum_ok(w):
     """hypothesis `hnum` of C01.parseLong_emit (lean/PraatModel/Props/C01Long.lean): `LongNum`, i.e. the rendered time matches
-    the long-format reader's numeral pattern entirely"""
+    the captured group of the long-format reader's numeric rows (an optional minus sign and the numeral) entirely"""
     import re
-    return re.fullmatch(r"[\d.]+(?:[eE][-+]?\d+)?", w) is not None
+    return re.fullmatch(r"-?[\d.]+(?:[eE][-+]?\d+)?", w) is not None
 
 
 def jsonnum_ok(w):
@@ -171,6 +173,8 @@ def tags(c, r):
     if c["op"] in iomodel.MODEL_OPS:
         return ["model:" + c["op"]] + (["err:" + r[1]] if r[0] == "err" else [])
     out = [c["fmt"], "blanks:%s" % c["blanks"], "iei:%s" % c["iei"], c.get("stream", "plain")] + _sliver_tag(c)
+    if any(x < 0 for x in times_of(c["tg"])):
+        out.append("negative-times")
     for k in ("save", "open"):
         if k in r and r[k][0] == "err":
             out.append(f"{k}-err:{r[k][1]}")
@@ -245,6 +249,31 @@ def corpus():
                                         {"k": "I", "name": "i", "es": [[1.0, 2.9999999999999996, 'a"\nb']], "lo": 0.0, "hi": 5.0}]}
     for fmt in ioops.FORMATS:
         yield {"op": "roundtrip", "tg": g6, "fmt": fmt, "blanks": True, "iei": True}
+    # A30 (fixed): negative times - the long-format reader dropped the sign of a start and refused a negative end
+    g7 = {"lo": -3.0, "hi": 2.0, "tiers": [{"k": "I", "name": "a", "es": [[-2.5, -1.0, "x"], [0.5, 1.0, "y"]], "lo": -3.0, "hi": 2.0},
+                                         {"k": "P", "name": "p", "es": [[-2.0, "m"], [1.5, "n"]], "lo": -3.0, "hi": 2.0}]}
+    g8 = {"lo": -5.0, "hi": -0.0, "tiers": [{"k": "I", "name": "a", "es": [[-4.000000000000001, -1e-05, "x"]], "lo": -5.0, "hi": -0.0},
+                                          {"k": "P", "name": "p", "es": [[-1e-17, "m"]], "lo": -5.0, "hi": -0.0}]}
+    for fmt in ioops.FORMATS:
+        for blanks in (True, False):
+            yield {"op": "roundtrip", "tg": g7, "fmt": fmt, "blanks": blanks, "iei": True}
+            yield {"op": "roundtrip", "tg": g8, "fmt": fmt, "blanks": blanks, "iei": blanks}
+    # A31 (fixed): a tier name with surrounding blanks / tabs - the short-format reader stripped it
+    g9 = {"lo": 0.0, "hi": 2.0, "tiers": [{"k": "I", "name": " a b ", "es": [[0.0, 1.0, "x"]], "lo": 0.0, "hi": 2.0},
+                                        {"k": "P", "name": "\tq ", "es": [[0.5, "m"]], "lo": 0.0, "hi": 2.0}]}
+    for fmt in ioops.FORMATS:
+        yield {"op": "roundtrip", "tg": g9, "fmt": fmt, "blanks": True, "iei": True}
+    # A32 (fixed): a tier name with a line break - the long-format reader's name pattern had no DOTALL (ParsingError)
+    g10 = {"lo": 0.0, "hi": 2.0, "tiers": [{"k": "I", "name": "c\nd", "es": [[0.0, 1.0, "x"]], "lo": 0.0, "hi": 2.0},
+                                         {"k": "P", "name": " e\n f\"g\" \n", "es": [[0.5, "m"]], "lo": 0.0, "hi": 2.0}]}
+    for fmt in ioops.FORMATS:
+        yield {"op": "roundtrip", "tg": g10, "fmt": fmt, "blanks": True, "iei": True}
+    # A33 (known): a line of a multi-line name that reads like the tier's span row is taken for it by the long-format reader
+    g11 = {"lo": 0.0, "hi": 2.0, "tiers": [{"k": "P", "name": "xmin = 1\nb", "es": [[0.5, "p"]], "lo": 0.0, "hi": 2.0}]}
+    g12 = {"lo": 0.0, "hi": 2.0, "tiers": [{"k": "P", "name": "a\n xmax= -2.5 \nz", "es": [[0.5, "p"]], "lo": 0.0, "hi": 2.0}]}
+    for g in (g11, g12):
+        for fmt in ioops.FORMATS:
+            yield {"op": "roundtrip", "tg": g, "fmt": fmt, "blanks": False, "iei": True, "stream": "keyword"}
     yield from json_corpus()
 
 
@@ -387,11 +416,13 @@ def gen_main(rnd, tier):
     for i in range(n):
         kw = rnd.random() < 0.12
         labels = ioops.PLAIN_LABELS + (ioops.KEYWORD_LABELS if kw else [])
-        names = ioops.NAMES + (ioops.KEYWORD_NAMES if kw and rnd.random() < 0.3 else [])
+        names = ioops.NAMES + (ioops.KEYWORD_NAMES + ioops.ROW_NAMES if kw and rnd.random() < 0.3 else [])
         g = despace(ioops.gen_tg(rnd, rnd.choice(["full", "full", "simple"]), labels=labels, names=names), rnd)
         blanks = rnd.random() < 0.6
         if not blanks and rnd.random() < 0.3:
             g = narrow_one_tier(g, rnd)         # the tier's own span must survive the round trip (not in the plain json format)
+        if rnd.random() < 0.25:
+            g = ioops.negate_tg(g, rnd)         # negative times: all below 0, or on both sides of it (A30, fixed)
         yield {"op": "roundtrip", "tg": g, "fmt": rnd.choice(ioops.FORMATS), "blanks": blanks, "iei": rnd.random() < 0.5,
                "stream": "keyword" if kw else "plain"}
 
